@@ -143,6 +143,38 @@ theorem forwarder_data_in_order_partial (sid : Nat) (evs : List LocalEv) :
       · exact ih f hf
     | eof => simp [forwarderFrames] at hf
 
+/-! ### the peer's FIN at the server: from the stream to the target (M14, `Model/Relay.lean`)
+
+What a relay loop's task does once the loop is over is regenerated from the source (`RelaySite.atEnd`).  For the
+server's stream → target loop the end of the stream (the peer's FIN, `fin_after_data`) has to become the end of the
+target's input.  (The five other loops end silently: those are the known findings above and carry no obligation.) -/
+
+/-- Obligation on the code: the server's stream → target task shuts the target's write side down after its loop (the
+split write half is not shut down by being dropped: the defect repaired in `8509bd3`). -/
+theorem gen_server_upstream_shuts_target :
+    (Gen.relaySites.find? (fun s => s.file == "src/server/handler.rs" && s.write == .writeAll)).map (·.atEnd)
+      = some .shutdownSink := by decide
+
+/-- T8.5: for every relay loop of the code that does something at its end: whenever the loop ends because its source
+ended — for every sequence of reads, every buffer content, every short-write behaviour of the sink — the sink's peer
+has received every byte the source produced, in order, once, and the end of stream after them (nothing is written
+after it, so never before them). -/
+theorem end_after_all_data (s : Gen.RelaySite) (hs : s ∈ Gen.relaySites) (hend : s.atEnd ≠ .nothing)
+    (reads : List Bytes) (buf : Bytes) (caps : List Nat)
+    (hdone : (Relay.run s.write s.slice buf reads caps).sourceDone = true) :
+    Relay.finish s.atEnd (Relay.run s.write s.slice buf reads caps) = { bytes := flatten reads, ended := true } := by
+  unfold Relay.finish
+  rw [C01.every_relay_loop_complete s hs reads buf caps hdone]
+  cases h : s.atEnd <;> simp_all
+
+/-- the excluded shape: a task that ends silently never ends the sink's input, whatever it delivered -/
+theorem silent_end_never_reaches_sink (o : Relay.Out) : (Relay.finish .nothing o).ended = false := by rfl
+
+/-- non-vacuity: the server's stream → target site exists, ends its sink, and a run of it ends by its source -/
+example : ∃ s ∈ Gen.relaySites, s.atEnd ≠ .nothing ∧
+    (Relay.run s.write s.slice [] [[1, 2, 3], [4, 5]] [2, 9, 1, 1]).sourceDone = true :=
+  ⟨⟨"src/server/handler.rs", .writeAll, .prefixN, .shutdownSink⟩, by decide, by decide, by decide⟩
+
 /-- non-vacuity: stream 5 of the example server state, three queued bytes, then FIN -/
 example :
     let s := (C02.exS.handleFrame { cmd := .push, sid := 5, data := [1, 2, 3] }).1
